@@ -573,7 +573,8 @@ func (f *FaceModule) query(interest *spec.Interest, pitToken []byte, _ uint64) {
 		return
 	}
 	filterV, err := mgmt.ParseFaceQueryFilter(enc.NewBufferReader(interest.NameV[f.manager.prefixLength()+2].Val), true)
-	if err != nil {
+	if err != nil || filterV.Val == nil {
+		// malformed, or no FaceQueryFilter element at all
 		return
 	}
 	filter := filterV.Val
